@@ -314,6 +314,8 @@ func Run(req *fnv1.RunFunctionRequest) *fnv1.RunFunctionResponse {
 			}
 			prev := rsp.Context.Fields["trail"].GetStringValue()
 			rsp.Context.Fields["trail"] = structpb.NewStringValue(prev + "/" + step)
+		case "contextDrop": // returns no context at all
+			rsp.Context = nil
 		case "contextReset":
 			rsp.Context = &structpb.Struct{Fields: map[string]*structpb.Value{"trail": structpb.NewStringValue("reset@" + step)}}
 		case "status":
